@@ -26,7 +26,7 @@ func init() {
 	extend("C32", "probe-verdict: in LimitedReadCloser.Read the over-limit probe sets limitExceeded only on a branch establishing that the probe returned data (count > 0) and on every such path; from the probe no exit is reachable that returns something other than the probe's error unless a branch established count > 0, error == nil or error == io.EOF; "+
 		"error-written: ErrorHandler.HandleHTTPError reaches WriteErrorResponse on every path except through `err == nil`, the generic replacement text is assigned only where errors.As found no platform error, and a platform error's own Error() text is what is written; "+
 		"status-lookup: ErrorCodeToStatusCode reaches the lookup in the code→status table on every path except through ctx.Err() == DeadlineExceeded/Canceled, returns the looked-up status only where the lookup succeeded and always then; "+
-		"write-error-kept: after a failed underlying write LoggingPointsWriter.WritePoints returns that error on every path except those on which the log-bucket lookup or the log write failed or found no bucket.",
+		"write-error-kept: after a failed underlying write LoggingPointsWriter.WritePoints returns that error on every path, whatever happens to the log entry (lookup failure, no log bucket, failed log write).",
 		nil, func(p *core.Prog, r *core.Report, tier string) {
 			c32mProbe(p, r)
 			c32mErrorWritten(p, r)
@@ -402,7 +402,7 @@ func c32mWriteErrorKept(p *core.Prog, r *core.Report) {
 		}
 		return false
 	}
-	loggingFailed := core.OrEdge8(
+	_ = core.OrEdge8(
 		g.NilFactEdge8(func(x ast.Expr) bool {
 			return core.IsErrorType(info.TypeOf(x)) && !isW(x)
 		}, false),
@@ -419,13 +419,13 @@ func c32mWriteErrorKept(p *core.Prog, r *core.Report) {
 				continue
 			}
 			n++
-			for _, x := range core.X1ExitsIn(g.Reach([]*core.Node{e.To}, retW, loggingFailed)) {
+			for _, x := range core.X1ExitsIn(g.Reach([]*core.Node{e.To}, retW, nil)) {
 				bad = g.Line(x)
 			}
 		}
 	}
 	if r.Check(n >= 1, rule, f.String(), "failure-branch:absent", g.Line(wn), "a branch tests the write error") {
 		r.Check(bad == "", rule, f.String(), "write-error-replaced", g.Line(wn),
-			"after a failed write every path returns the write error itself (a PartialWriteError carries the dropped count) unless a branch established that logging failed or no log bucket exists"+ifs8(bad != "", " — exit "+bad+" returns something else"))
+			"after a failed write every path returns the write error itself (a PartialWriteError carries the dropped count, and the handler recognises it by type), whatever happens to the log entry"+ifs8(bad != "", " — exit "+bad+" returns something else"))
 	}
 }
